@@ -122,6 +122,7 @@ type Contract struct {
 	Loops    []Clause
 	Assigns  []SExpr
 	AssignsAll bool
+	AllUnless  SExpr // "assigns * unless <cond>": everything may change unless cond held on entry
 	HasAssigns bool
 	Trusted  bool
 	Pure     bool
@@ -137,6 +138,7 @@ type Contract struct {
 	Patterns [][]SExpr // instantiation patterns when the lemma is used as an axiom
 	Irrelevant []string // captured variables of closures whose assignments are ghost-irrelevant (logging only)
 	Mutates  []string   // slice parameters modified in place; post(p) is their final value
+	Closes   []string   // channel parameters that are closed on return
 	LoopLets []LoopLet
 	GhostSets []GhostSet // ghost assignments executed at the function's exit (and assumed at call sites)
 }
@@ -155,6 +157,7 @@ type Macro struct {
 	Body   SExpr
 	Rec    bool
 	Opaque bool
+	Ufn    bool // uninterpreted spec function (no body)
 	Pkg    string
 }
 
@@ -364,6 +367,16 @@ func (p *sparser) typeText() string {
 		panic("spec: type name expected, got " + t.v)
 	}
 	sb.WriteString(t.v)
+	if t.v == "chan" {
+		sb.WriteString(" " + p.typeText())
+		return sb.String()
+	}
+	if t.v == "struct" {
+		p.expectOp("{")
+		p.expectOp("}")
+		sb.WriteString("{}")
+		return sb.String()
+	}
 	if t.v == "map" {
 		p.expectOp("[")
 		sb.WriteString("[" + p.typeText() + "]")
@@ -627,7 +640,7 @@ var clauseKeywords = map[string]bool{
 	"decreases": true, "trusted": true, "pure": true, "pred": true, "fn": true,
 	"lemma": true, "axiom": true, "call": true, "assert": true, "abstracts": true,
 	"props": true, "uses": true, "noinline": true, "ghost": true, "induct": true,
-	"package": true, "recfn": true, "opred": true, "bounded": true, "use": true, "pattern": true, "irrelevant": true, "mutates": true, "ghostset": true,
+	"package": true, "recfn": true, "opred": true, "ufn": true, "bounded": true, "use": true, "pattern": true, "irrelevant": true, "mutates": true, "ghostset": true, "closes": true,
 }
 
 func firstWord(s string) string {
@@ -693,6 +706,14 @@ func parseSpecFile(path, pkgPath string) (*SpecFile, error) {
 			}
 			sf.Contracts = append(sf.Contracts, c)
 			cur = c
+		case "ufn":
+			m, err := parseMacro("fn", rest+" := true")
+			if err != nil {
+				return nil, fail(i, "%v", err)
+			}
+			m.Ufn = true
+			m.Pkg = pkgPath
+			sf.Macros = append(sf.Macros, m)
 		case "pred", "fn", "recfn", "opred":
 			m, err := parseMacro(w, rest)
 			if err != nil {
@@ -770,6 +791,14 @@ func parseSpecFile(path, pkgPath string) (*SpecFile, error) {
 					cur.AssignsAll = true
 					break
 				}
+				if strings.HasPrefix(rest, "* unless ") {
+					e, err := parseSpecExpr(strings.TrimPrefix(rest, "* unless "))
+					if err != nil {
+						return nil, fail(i, "%v", err)
+					}
+					cur.AllUnless = e
+					break
+				}
 				if rest == "nothing" {
 					break
 				}
@@ -809,6 +838,8 @@ func parseSpecFile(path, pkgPath string) (*SpecFile, error) {
 				cur.GhostSets = append(cur.GhostSets, GhostSet{strings.TrimSpace(rest[:k]), e, rest})
 			case "irrelevant":
 				cur.Irrelevant = append(cur.Irrelevant, strings.Fields(strings.ReplaceAll(rest, ",", " "))...)
+			case "closes":
+				cur.Closes = append(cur.Closes, strings.Fields(strings.ReplaceAll(rest, ",", " "))...)
 			case "mutates":
 				cur.Mutates = append(cur.Mutates, strings.Fields(strings.ReplaceAll(rest, ",", " "))...)
 			case "induct":
